@@ -34,6 +34,142 @@ type Printer struct {
 	// following long string would concatenate with it.
 	afterLong bool
 	inSpace   bool
+	// SIDOneIn: a symbol whose text the current table defines is spelled $n with
+	// probability 1/SIDOneIn (default 5).
+	SIDOneIn int
+	// UndefinedSlots: a symbol with unknown text may be spelled $n for a slot n
+	// of the current table whose text is undefined (not only $0).
+	UndefinedSlots bool
+}
+
+// Begin starts a new stream (system symbol table in force).
+func (p *Printer) Begin() {
+	p.b = p.b[:0]
+	p.tab = refbin.NewSystemTab()
+}
+
+// SetTable tells the printer which symbol table is in force from here on.
+func (p *Printer) SetTable(t *refbin.SymTab) { p.tab = t }
+
+// Top prints one top-level value followed by separating whitespace.
+func (p *Printer) Top(v model.Value) {
+	p.space(false)
+	p.value(v, ctxTop)
+	p.space(true)
+}
+
+// Raw writes s verbatim, followed by separating whitespace.
+func (p *Printer) Raw(s string) {
+	p.space(false)
+	p.w(s)
+	p.space(true)
+}
+
+// Bytes returns what was printed since Begin.
+func (p *Printer) Bytes() []byte { return append([]byte{}, p.b...) }
+
+// LST prints a local symbol table struct.
+func (p *Printer) LST(imports []refbin.Import, symbols []refbin.Slot, appendMode bool, extra bool) {
+	p.space(false)
+	p.w([]string{"$ion_symbol_table", "$ion_symbol_table", "'$ion_symbol_table'", "$3"}[p.C.Intn(4)])
+	p.space(false)
+	p.w("::")
+	p.space(false)
+	p.w("{")
+	first := true
+	sep := func() {
+		if !first {
+			p.w(",")
+		}
+		first = false
+		p.space(false)
+	}
+	doImports := func() {
+		if appendMode {
+			sep()
+			p.w([]string{"imports", "$6", "'imports'", "\"imports\""}[p.C.Intn(4)])
+			p.space(false)
+			p.w(":")
+			p.space(false)
+			p.w([]string{"$ion_symbol_table", "$3", "'$ion_symbol_table'"}[p.C.Intn(3)])
+			p.space(false)
+			return
+		}
+		if len(imports) == 0 && p.C.Intn(3) != 0 {
+			return
+		}
+		sep()
+		p.w([]string{"imports", "$6"}[p.C.Intn(2)])
+		p.space(false)
+		p.w(":")
+		p.space(false)
+		p.w("[")
+		for i, imp := range imports {
+			if i > 0 {
+				p.w(",")
+			}
+			p.space(false)
+			p.w("{")
+			p.space(false)
+			p.w([]string{"name", "$4"}[p.C.Intn(2)] + ":")
+			p.str(imp.Name)
+			p.w(",")
+			p.space(false)
+			p.w([]string{"version", "$5"}[p.C.Intn(2)] + ":" + strconv.Itoa(imp.Version))
+			if imp.MaxID >= 0 {
+				p.w(",")
+				p.space(false)
+				p.w([]string{"max_id", "$8"}[p.C.Intn(2)] + ":" + strconv.Itoa(imp.MaxID))
+			}
+			p.space(false)
+			p.w("}")
+			p.space(false)
+		}
+		p.w("]")
+		p.space(false)
+	}
+	doSymbols := func() {
+		if symbols == nil {
+			return
+		}
+		sep()
+		p.w([]string{"symbols", "$7"}[p.C.Intn(2)])
+		p.space(false)
+		p.w(":")
+		p.space(false)
+		p.w("[")
+		for i, s := range symbols {
+			if i > 0 {
+				p.w(",")
+			}
+			p.space(false)
+			if s.Known {
+				p.str(s.Text)
+			} else {
+				p.w([]string{"null", "null.string", "7", "sym", "[]", "null.symbol"}[p.C.Intn(6)])
+			}
+			p.space(false)
+		}
+		p.w("]")
+		p.space(false)
+	}
+	if extra && p.C.Intn(2) == 0 {
+		sep()
+		p.w("foo:1")
+	}
+	if p.C.Intn(3) == 2 {
+		doSymbols()
+		doImports()
+	} else {
+		doImports()
+		doSymbols()
+	}
+	if extra {
+		sep()
+		p.w([]string{"name:\"x\"", "version:3", "max_id:2", "bar:[{}]"}[p.C.Intn(4)])
+	}
+	p.w("}")
+	p.space(true)
 }
 
 // NewPrinter makes a printer; nil chooser = canonical.
@@ -507,11 +643,15 @@ func isOperatorText(s string) bool {
 // symbol prints a symbol token. inSexp allows bare operator spelling.
 func (p *Printer) symbol(s model.Sym, inSexp bool, isAnnotation bool) {
 	if !s.Known {
-		p.w("$0")
+		p.w("$" + strconv.Itoa(p.unknownID()))
 		return
 	}
 	// $n spelling when the current table defines the text
-	if ids := p.tab.FindAll(s.Text); len(ids) > 0 && p.rarely("symbol.sid-spelling", 5) {
+	oneIn := 5
+	if p.SIDOneIn > 0 {
+		oneIn = p.SIDOneIn
+	}
+	if ids := p.tab.FindAll(s.Text); len(ids) > 0 && (oneIn == 1 || p.rarely("symbol.sid-spelling", oneIn)) {
 		// a top-level bare $2 ... is still a symbol ID reference, fine
 		p.w("$" + strconv.Itoa(ids[p.C.Intn(len(ids))]))
 		return
@@ -535,9 +675,23 @@ func (p *Printer) symbol(s model.Sym, inSexp bool, isAnnotation bool) {
 	p.w("'")
 }
 
+// unknownID picks the ID used to spell a symbol with unknown text.
+func (p *Printer) unknownID() int {
+	if !p.UndefinedSlots {
+		return 0
+	}
+	ids := []int{0}
+	for i := 1; i < len(p.tab.Slots); i++ {
+		if !p.tab.Slots[i].Known {
+			ids = append(ids, i)
+		}
+	}
+	return ids[p.C.Intn(len(ids))]
+}
+
 func (p *Printer) fieldName(s model.Sym) {
 	if !s.Known {
-		p.w("$0")
+		p.w("$" + strconv.Itoa(p.unknownID()))
 		return
 	}
 	switch p.choose("fieldname.as-string", 6) {
